@@ -560,6 +560,9 @@ func (e *Engine) enterBlock(st *State, b *ssa.BasicBlock) {
 		fr.prev, fr.block, fr.idx = from, b, firstNonPhi(b)
 		e.loopInvariants(st, fr, hdr, spec, "init")
 		e.havocLoop(st, fr, hdr, spec)
+		// everything allocated from here on belongs to the current iteration of this loop (iterfresh)
+		st.bumpWatermark()
+		fr.iterWM = st.wm()
 		e.loopInvariants(st, fr, hdr, spec, "assume")
 		fr.cut[b] = true
 		return
